@@ -1584,18 +1584,65 @@ def value_alternatives(e, depth=0):
     return [([], e)]
 
 
-def result_table(ix, e, depth=0, unwrap=("Option::Some", "Result::Ok")):
+def _own_tries(blk):
+    """the `x?` nodes of an inlined helper's body that exit *that helper* (not those of closures or of helpers inlined inside it)"""
+    out = []
+    stack = [blk["b"]]
+    while stack:
+        x = stack.pop()
+        if isinstance(x, list):
+            stack.extend(x)
+            continue
+        if not isinstance(x, dict):
+            continue
+        if x.get("k") == "closure" or (x.get("k") == "blockexpr" and "inl_id" in x):
+            if x.get("k") == "blockexpr":
+                # the arguments of the nested helper are evaluated in this helper
+                stack.extend(s_.get("init") for s_ in x["b"].get("stmts", []) if s_.get("inl_param"))
+            continue
+        if x.get("k") == "try":
+            out.append(x)
+        stack.extend(v for k_, v in x.items() if k_ != "mac" and isinstance(v, (dict, list)))
+    return out
+
+
+def _try_exits(ix, blk):
+    """[(conditions, leaf)] for the early exits `x?` of an inlined helper: the helper hands back None / Err when x is None / Err"""
+    out = []
+    for t in _own_tries(blk):
+        ty = str(t["e"].get("ty", ""))
+        if "Option<" in ty:
+            leaf = {"k": "def", "dk": "ctor_variant", "path": "core::option::Option::None", "ty": blk.get("ty"), "sp": t.get("sp")}
+            pat = {"k": "pvariant", "path": "core::option::Option::None", "subs": []}
+        elif "Result<" in ty:
+            leaf = {"k": "ctor", "dk": "ctor_variant", "path": "core::result::Result::Err", "args": [{"k": "lit", "v": "<the error of `%s`>" % show(t["e"])[:40], "ty": "?"}], "ty": blk.get("ty"), "sp": t.get("sp")}
+            pat = {"k": "pvariant", "path": "core::result::Result::Err", "subs": [{"k": "pwild"}]}
+        else:
+            continue
+        pre = path_conditions(ix, t, upto=blk) if id(t) in ix.parent else []
+        out.append((pre + [({"k": "armpat", "scrut": t["e"], "pat": pat}, True)], leaf))
+    return out
+
+
+def result_table(ix, e, depth=0, unwrap=("Option::Some", "Result::Ok"), _body_of=None):
     """[(conditions, leaf expression)] for the values an expression can produce: through immutable lets, if/else, match arms
     (an arm contributes {"k": "armpat", "scrut", "pat"} and its guard; earlier guarded arms of the same pattern contribute their negated guard),
     blocks and the wrappers in `unwrap`.  Conditions are (node, polarity) pairs as in path_conditions."""
     e0 = e
     while e0.get("k") == "ref":
         e0 = e0["e"]
+    if e0.get("k") == "blockexpr" and "inl_id" not in e0 and depth <= 8 and _body_of is not e0:
+        # the body block of an inlined helper reached without its wrapper (the wrapper only binds the parameters and is peeled as trivial)
+        par = ix.parent.get(id(e0))
+        own = ix.parent.get(id(par)) if isinstance(par, dict) and par.get("k") == "block" and par.get("tail") is e0 else None
+        if isinstance(own, dict) and own.get("k") == "blockexpr" and "inl_id" in own and all(s_.get("inl_param") for s_ in par.get("stmts", [])):
+            e0 = own
     if e0.get("k") == "blockexpr" and "inl_id" in e0 and depth <= 8:
         # an inlined helper: its value is what its exits return (each under the conditions of that exit inside the helper) or its tail
         exits = [x for x in walk(e0) if x.get("k") == "ireturn" and x.get("inl") == e0["inl_id"] and "e" in x]
-        if exits:
-            out = []
+        tries = _try_exits(ix, e0)
+        if exits or tries:
+            out = list(tries)
             for x in exits:
                 pre = path_conditions(ix, x, upto=e0)
                 out += [(pre + cs, leaf) for cs, leaf in result_table(ix, x["e"], depth + 1, unwrap)]
@@ -1604,7 +1651,7 @@ def result_table(ix, e, depth=0, unwrap=("Option::Some", "Result::Ok")):
                 t = t["b"]["tail"]
             if t is not None and not _diverges(t) and not (t.get("k") == "loop" and not any(y.get("k") == "break" for y in walk(t))):
                 pre = path_conditions(ix, e0["b"]["tail"], upto=e0)      # the early exits before the tail were not taken
-                out += [(pre + cs, leaf) for cs, leaf in result_table(ix, e0["b"]["tail"], depth + 1, unwrap)]
+                out += [(pre + cs, leaf) for cs, leaf in result_table(ix, e0["b"]["tail"], depth + 1, unwrap, _body_of=e0["b"]["tail"])]
             return out
     e = tail_value(e)
     if depth > 8:
@@ -1645,14 +1692,15 @@ def result_table(ix, e, depth=0, unwrap=("Option::Some", "Result::Ok")):
         if "inl_id" in e:
             # an inlined helper: its value is what its exits return (each under the conditions of that exit inside the helper) or its tail
             exits = [x for x in walk(e) if x.get("k") == "ireturn" and x.get("inl") == e["inl_id"] and "e" in x]
-            if exits:
-                out = []
+            tries = _try_exits(ix, e)
+            if exits or tries:
+                out = list(tries)
                 for x in exits:
                     pre = path_conditions(ix, x, upto=e)
                     out += [(pre + cs, leaf) for cs, leaf in result_table(ix, x["e"], depth + 1, unwrap)]
                 if "tail" in b and not _diverges(b["tail"]) and not (peel(b["tail"]).get("k") == "loop" and not any(y.get("k") == "break" for y in walk(b["tail"]))):
                     pre = path_conditions(ix, b["tail"], upto=e)
-                    out += [(pre + cs, leaf) for cs, leaf in result_table(ix, b["tail"], depth + 1, unwrap)]
+                    out += [(pre + cs, leaf) for cs, leaf in result_table(ix, b["tail"], depth + 1, unwrap, _body_of=b["tail"])]
                 return out
         if "tail" in b:
             pre = path_conditions(ix, b["tail"], upto=e) if id(b["tail"]) in ix.parent else []     # early exits before the tail were not taken
